@@ -28,6 +28,9 @@ HIST = {
  'b17-parent-python-section-names-imported-over-the-childs': 'missed at first (generated chains had no Python sections): helper sections hlp/hlq defined differently at every level, used by `|>` and `where` of that level; the flattened model renames them per level',
  'b18-literal-wrappers-interned-by-value-across-the-chain': 'missed at first (the same literal argument at two levels with and without ignore was a once-in-4000-histories shape - the shape of known finding D8): derived grammars echo a literal call of an ancestor in half of the chains; caught through the stability invariant (using B changed A); the order "base first" is masked by D8\'s attribution',
  'c18-per-family-rlock-around-the-driver-lock-ordering': 'hung the simulator at first (a real lock in the shipped parser blocked the baton holder: exit 2): synchronisation seam (simulated locks, outcome deadlock), sourcer imported under the seam, mutual-nesting workload; caught as `deadlock` vs value',
+ 'b19-ignored-skipper-single-pass-relies-on-literal-flags': 'missed at first (no derived grammar consisted of ignore declarations only, ignorable tokens were never adjacent, and parses on which the two readings of combined ignore patterns differ were not judged): ignore-only derived grammars, two declarations per level, adjacent gaps; such parses must now agree with ONE of the two readings',
+ 'c20-weak-in-flight-table-outlives-failed-calls': 'not run before strengthening: on reading the report, exceptions of FAILED calls are kept by the caller as well (kept exceptions of aborted calls had been added an hour earlier) and a sibling repeats the very same call; caught then (14 violations in 228 runs)',
+ 'c21-call-closures-stored-on-the-context-inherited-by-snapshot': 'caught as built by C18 (1 in 2000 runs: constructions from parse callbacks had been added while the change was being written) and by C13 (7 in 1764: parent used before the child is created)',
  'c10-recursion-limit-raised-during-construction': 'missed at first (no user code looked at interpreter-wide settings): envprobe() in generated grammars; module-state mutation lines in library code are injection points',
 }
 res = open('/verif/seeded/RESULTS.txt').read().splitlines()
